@@ -53,6 +53,9 @@ func c20Query(w *World, size int64, bm string) (string, *c20Page) {
 	return fmt.Sprintf("QOk %s %s", coqList(ids), coqStr(p.Bookmark)), &p
 }
 
+// c20To: the destination channel the records of the next case name (no field of a record has a length limit)
+var c20To = "VT"
+
 func c20Case(c *Ctx, ids []string, junk []string, walkSizes []int64, keepAll bool) error {
 	rng := c.Rng
 	w := NewWorld()
@@ -65,7 +68,7 @@ func c20Case(c *Ctx, ids []string, junk []string, walkSizes []int64, keepAll boo
 	var steps []c20Step
 	created := map[string]bool{}
 	for _, id := range ids {
-		msg := tokenRun(w, "tt", user, &nonce, "channelTransferByCustomer", id, "VT", "TT", "10")
+		msg := tokenRun(w, "tt", user, &nonce, "channelTransferByCustomer", id, c20To, "TT", "10")
 		steps = append(steps, c20Step{"create", id, msg})
 		c.Count("create_" + errClassShort(msg))
 		if msg == "" {
@@ -142,7 +145,11 @@ func c20Case(c *Ctx, ids []string, junk []string, walkSizes []int64, keepAll boo
 		if strings.HasPrefix(k, c20Prefix) {
 			inRange++
 		}
-		ledger = append(ledger, fmt.Sprintf("(%s, %s)", coqStr(k), coqStr(id)))
+		kk := k
+		if len(kk) > 200 && !strings.HasPrefix(kk, "/transfer/") {
+			kk = kk[:200] // a very long unrelated key (the given-out balance of a 300 KiB channel name): its place in the order is decided long before
+		}
+		ledger = append(ledger, fmt.Sprintf("(%s, %s)", coqStr(kk), coqStr(id)))
 	}
 	// which ids exist according to the point query
 	var existing []string
@@ -246,7 +253,7 @@ func errClassShort(msg string) string {
 
 func genC20(c *Ctx) error {
 	c.ShardSize = 6
-	c.Notes["rule"] = "each case: fresh chaincode; 0-9 origin-side transfers created through signed batched channelTransferByCustomer with ids from a pool (ids that are prefixes of each other, ids that differ only by trailing or leading white space, ids at and beyond '~', multi-byte ids up to the last code point U+10FFFF, duplicate ids, and ids on which path.Join is not concatenation: '.', '..', 'a/', '../to/x', 'a//b'), then committed / cancelled / committed+deleted at random; two destination-side records and unrelated keys just outside the range; all page sizes 1..n+1 and the two largest sizes the interface takes (2^31-2, 2^31-1) walked from the empty bookmark; single queries for sizes {1,2,n,n+1,2^31-1,0,-1,-100} x bookmarks {empty, every transfer key, keys outside the range, a non-existing key inside the range, the end key}. Plus sets of ids that differ only by white space at either end, all kept. Plus long listings: 230-330 records created in a permuted order, walked with page sizes 1, 7, 64, 99, 100, 101, 115, n-1, n, n+3, 1000. Plus single ids (fixed awkward ones, then random strings over letters, dots, slashes, blanks, multi-byte and invalid bytes, NUL) through CCFromTransfer / CCToTransfer / Base / IsValidID, each also used to create a record. Non-trivial: >= 2 records in range (an id case: a record was created, or the id has a dot or a slash)."
+	c.Notes["rule"] = "each case: fresh chaincode; 0-9 origin-side transfers created through signed batched channelTransferByCustomer with ids from a pool (ids that are prefixes of each other, ids that differ only by trailing or leading white space, ids at and beyond '~', multi-byte ids up to the last code point U+10FFFF, duplicate ids, and ids on which path.Join is not concatenation: '.', '..', 'a/', '../to/x', 'a//b'), then committed / cancelled / committed+deleted at random; two destination-side records and unrelated keys just outside the range; all page sizes 1..n+1 and the two largest sizes the interface takes (2^31-2, 2^31-1) walked from the empty bookmark; single queries for sizes {1,2,n,n+1,2^31-1,0,-1,-100} x bookmarks {empty, every transfer key, keys outside the range, a non-existing key inside the range, the end key}. Plus sets of ids that differ only by white space at either end, all kept. Plus 5-7 records of 300 KiB each (a page of them is megabytes). Plus long listings: 230-330 records created in a permuted order, walked with page sizes 1, 7, 64, 99, 100, 101, 115, n-1, n, n+3, 1000. Plus single ids (fixed awkward ones, then random strings over letters, dots, slashes, blanks, multi-byte and invalid bytes, NUL) through CCFromTransfer / CCToTransfer / Base / IsValidID, each also used to create a record. Non-trivial: >= 2 records in range (an id case: a record was created, or the id has a dot or a slash)."
 	rng := c.Rng
 	clean := []string{"a", "ab", "b", "a0", "zz", "é", "0", "A", "abc", "b-1", "~", "a b", "a ", "a\t", "ab ", " a", "~z", "\u007f", "振込", "\U0010FFFF", "\U0010FFFFz", "\U0010FFFEz", "\uFFFDa"}
 	unclean := []string{".", "..", "a/", "../to/x", "a//b", "x/y"}
@@ -328,6 +335,16 @@ func genC20(c *Ctx) error {
 			c.Emit(term, map[string]interface{}{"path_id": id, "created": created}, created || strings.Contains(id, "/") || strings.Contains(id, "."))
 			c.Count(fmt.Sprintf("path_valid_%v_created_%v", cctransfer.IsValidID(id), created))
 		}
+	}
+	// records that are large: a page of a few of them is several megabytes of ledger data
+	for i := c.N(1, 3); i > 0; i-- {
+		c20To = strings.Repeat("V", 300<<10)
+		err := c20Case(c, []string{"big0", "big1", "big2", "big3", "big4", "big5", "big6"}[:5+rng.Intn(3)], junkPool[:1], nil, true)
+		c20To = "VT"
+		if err != nil {
+			return err
+		}
+		c.Count("large_records")
 	}
 	// long listings: more records than any page-size limit a layer in between might impose (130-260 records, created in
 	// a permuted order), walked with page sizes below, at and above 100 and above the number of records
